@@ -60,6 +60,12 @@ func (e *Exec) builtin(fr *frame, st *State, c *ssa.CallCommon, b *ssa.Builtin, 
 	case "ssa:wrapnilchk":
 		return args[0], true
 	case "recover":
+		if st.panicking {
+			st.panicking = false
+			v := e.smt.fresh("recovered", SInt)
+			e.assume(st, tLt(v, tInt(0))) // a non-nil interface value
+			return v, true
+		}
 		return tInt(0), true
 	}
 	e.unsupported("builtin %s", b.Name())
@@ -357,6 +363,41 @@ func (e *Exec) extBuiltinC(st *State, c *ssa.CallCommon, fn *ssa.Function, key s
 		return e.freshOf(st, "printf", sig.Results()), true
 	case "sort.Slice":
 		return e.sortSlice(st, args, where), true
+	case "(*sync.Once).Do":
+		// f runs exactly when no earlier Do of this Once has run (ghost flag ghost_onceDone)
+		var cfn *ssa.Function
+		var bindings []Value
+		switch x := args[1].(type) {
+		case *Closure:
+			cfn, bindings = x.Fn, x.Bindings
+		case *FuncVal:
+			cfn = x.Fn
+		}
+		if cfn == nil || cfn.Blocks == nil {
+			e.unsupported("sync.Once.Do with a function value that is not a literal at %s", where)
+			e.havocAllHeap(st)
+			return &Tuple{}, true
+		}
+		e.trusted("sync.Once.Do runs its argument exactly once per Once (ghost_onceDone)")
+		ref := e.asTerm(st, args[0], sig.Params().At(0).Type())
+		e.ghostSorts["ghost_onceDone"] = SBool
+		e.ghostIdx["ghost_onceDone"] = ref.Sort
+		arr := e.heapComp(st, "G.ghost_onceDone", ref.Sort, arraySort(ref.Sort, SBool))
+		done := e.smt.define("oncedone", tSelect(arr, ref, SBool))
+		skip := st.clone()
+		skip.pc = e.smt.define("pc", tAnd(st.pc, done))
+		run := st.clone()
+		run.pc = e.smt.define("pc", tAnd(st.pc, tNot(done)))
+		arr2 := e.heapComp(run, "G.ghost_onceDone", ref.Sort, arraySort(ref.Sort, SBool))
+		e.setHeap(run, "G.ghost_onceDone", tStore(arr2, ref, tTrue))
+		_, out := e.runInline(cfn, nil, bindings, run, e.cs.ByKey[fnKey(cfn)])
+		var ins []edgeIn
+		ins = append(ins, edgeIn{st: skip})
+		if out != nil {
+			ins = append(ins, edgeIn{st: out})
+		}
+		*st = *e.merge(ins)
+		return &Tuple{}, true
 	case "path/filepath.Join":
 		// a deterministic function of its elements; the last element can be recovered (Base)
 		if c != nil {
